@@ -158,3 +158,7 @@ impl WordInfoParser {
         Ok(self.info)
     }
 }
+
+// verification hook: harness text lives outside the repository (see MANIFEST.hooks)
+#[cfg(any(kani, sudachi_verif))]
+include!(concat!(env!("SUDACHI_VERIF_DIR"), "/dic__read__word_info.rs"));
